@@ -63,6 +63,12 @@ type FnObs struct {
 	Params []ParamObs `json:"params"`
 	Line   int        `json:"line"`
 	Calls  []CallObs  `json:"calls"`
+	// further attributes of the entry: not part of what C01/C02 state, but part of "the model entries produced for a file"
+	// that C07 compares between runs (same file, other neighbours / order / repetition)
+	Override bool     `json:"override"`
+	Null     bool     `json:"null"`
+	Mods     []string `json:"mods"`
+	Anns     []AnnObs `json:"anns"`
 }
 type TypeObs struct {
 	Pkg   string   `json:"pkg"`
@@ -111,7 +117,15 @@ func project(nodes []core_domain.CodeDataStruct, root string) []TypeObs {
 			t.Anns = append(t.Anns, ao)
 		}
 		for _, f := range n.Functions {
-			fo := FnObs{Name: f.Name, Ret: f.ReturnType, Ctor: f.IsConstructor, Params: []ParamObs{}, Line: f.Position.StartLine, Calls: []CallObs{}}
+			fo := FnObs{Name: f.Name, Ret: f.ReturnType, Ctor: f.IsConstructor, Params: []ParamObs{}, Line: f.Position.StartLine, Calls: []CallObs{},
+				Override: f.Override, Null: f.IsReturnNull, Mods: append([]string{}, f.Modifiers...), Anns: []AnnObs{}}
+			for _, a := range f.Annotations {
+				ao := AnnObs{Name: a.Name, Kvs: []KVObs{}}
+				for _, kv := range a.KeyValues {
+					ao.Kvs = append(ao.Kvs, KVObs{kv.Key, kv.Value})
+				}
+				fo.Anns = append(fo.Anns, ao)
+			}
 			for _, p := range f.Parameters {
 				fo.Params = append(fo.Params, ParamObs{p.TypeType, p.TypeValue})
 			}
